@@ -45,6 +45,51 @@ ASSUMPTIONS = [
 ]
 
 
+# Verbosity is a dimension of every case: decoding must not depend on it.  Each new Pair / handshake run takes the
+# next level of this rotation (shifted by the check's seed); violations record the level, replays restore it.
+VERBS = [0, 0, 3, 0, 2, 0, 13, 1]
+CUR = [0]            # level of the case being run
+_rot = [0]
+
+
+def next_verbose():
+    v = VERBS[_rot[0] % len(VERBS)]
+    _rot[0] += 1
+    CUR[0] = v
+    return v
+
+
+class _Gone:
+    def write(self, s):
+        raise IOError(errno.EIO, 'scripted: stderr is gone')
+
+    def flush(self):
+        raise IOError(errno.EIO, 'scripted: stderr is gone')
+
+
+class Verb:
+    """Run real code at verbosity v % 10 with diagnostics going nowhere (v >= 10: into a stream that is gone)."""
+
+    def __init__(self, v):
+        self.v = v
+
+    def __enter__(self):
+        import sshuttle.helpers as helpers
+        self.h = helpers
+        self.saved = (helpers.verbose, sys.stderr)
+        helpers.verbose = self.v % 10
+        sys.stderr = _Gone() if self.v >= 10 else io.StringIO()
+
+    def __exit__(self, *a):
+        self.h.verbose, sys.stderr = self.saved
+        return False
+
+
+def vcase(**k):
+    k['verbose'] = CUR[0]
+    return k
+
+
 def _mods():
     import sshuttle.ssnet as ssnet
     import sshuttle.client as client
@@ -120,8 +165,10 @@ def lens(outbuf):
 class Pair:
     """Real sender + real receiver; executes ops, returns (model input line, impl output line)."""
 
-    def __init__(self, ssnet):
+    def __init__(self, ssnet, verbose=None):
         self.ssnet = ssnet
+        self.verbose = next_verbose() if verbose is None else verbose
+        CUR[0] = self.verbose
         self.a, self.ar, self.aw = make_mux(ssnet)   # sender
         self.b, self.br, self.bw = make_mux(ssnet)   # receiver
         self.sent = [(0, ssnet.CMD_PING, b'chicken')]
@@ -135,7 +182,8 @@ class Pair:
     def send(self, chan, cmd, data):
         line = 'send %s %d %s' % ('N' if chan is None else chan, cmd, hexb(data))
         try:
-            self.a.send(chan, cmd, data)
+            with Verb(self.verbose):
+                self.a.send(chan, cmd, data)
         except AssertionError:
             return line, 'assertLen'
         except struct.error:
@@ -146,7 +194,8 @@ class Pair:
     def flush(self, grant):
         self.aw.grant = grant
         before = len(self.aw.written)
-        self.a.flush()
+        with Verb(self.verbose):
+            self.a.flush()
         wrote = self.aw.written[before:]
         return 'flush %s' % ('N' if grant is None else grant), 'wire=%s out=%s' % (hexb(wrote), lens(self.a.outbuf))
 
@@ -156,7 +205,8 @@ class Pair:
         line = 'handle %s %s' % (kind, hexb(data))
         tag = 'ok'
         try:
-            self.b.handle()
+            with Verb(self.verbose):
+                self.b.handle()
         except AssertionError:
             tag = 'badMagic'
         except struct.error:
@@ -269,14 +319,14 @@ def pipe_case(ctx, ssnet, rng, nops, big_ok):
 def oracle_prefix(ctx, p, log, final):
     if p.starved is not None and final:
         ctx.violation('C07:loop:mux-stops-reading-with-a-partial-frame-buffered',
-                      case=dict(stream='mux', ops=list(log.ins)),
+                      case=vcase(stream='mux', ops=list(log.ins)),
                       expected='pre_select asks for the tunnel read file while the Mux is alive',
                       observed='not asked with %d bytes buffered (want=%d)' % p.starved, kind='ops')
     sent, deliv = p.sent, p.delivered
     ok = (not p.dead) and deliv == sent[:len(deliv)] and (not final or len(deliv) == len(sent))
     if not ok:
         ctx.violation('C07:pipe:delivered-not-prefix-of-sent' if not final else 'C07:pipe:not-all-delivered',
-                      case=dict(stream='mux', ops=list(log.ins)),
+                      case=vcase(stream='mux', ops=list(log.ins)),
                       expected='frames delivered are a prefix of frames sent (equal once drained), receiver alive',
                       observed=dict(sent=[(c, m, hexb(d)[:40]) for c, m, d in sent][-6:],
                                     delivered=[(c, m, hexb(d)[:40]) for c, m, d in deliv][-6:],
@@ -297,7 +347,7 @@ def cuts_case(ctx, ssnet, stream, cuts, frames):
     if frames is not None:
         if p.dead or p.delivered != frames or p.b.inbuf or p.b.want:
             ctx.violation('C07:cuts:decoded-differs-from-sent',
-                          case=dict(stream='mux-cuts', ops=list(log.ins), frames=show_frames(frames)),
+                          case=vcase(stream='mux-cuts', ops=list(log.ins), frames=show_frames(frames)),
                           expected=show_frames(frames), observed=dict(delivered=show_frames(p.delivered),
                                                                      inbuf=len(p.b.inbuf), want=p.b.want,
                                                                      failed=p.dead), kind='input')
@@ -322,12 +372,12 @@ def big_frame_case(ctx, ssnet, payload_len, reads):
         pos += n
     if p.starved is not None:
         ctx.violation('C07:loop:mux-stops-reading-with-a-partial-frame-buffered',
-                      case=dict(stream='big-frame', payload_len=payload_len, reads=list(reads)),
+                      case=vcase(stream='big-frame', payload_len=payload_len, reads=list(reads)),
                       expected='pre_select asks for the tunnel read file while the Mux is alive',
                       observed='not asked with %d bytes buffered (want=%d)' % p.starved, kind='input')
     elif p.dead or p.delivered != frames:
         ctx.violation('C07:cuts:decoded-differs-from-sent',
-                      case=dict(stream='big-frame', payload_len=payload_len, reads=list(reads)),
+                      case=vcase(stream='big-frame', payload_len=payload_len, reads=list(reads)),
                       expected=show_frames(frames)[:80], observed=dict(delivered=len(p.delivered), failed=p.dead), kind='input')
     log.nontrivial = True
     return log
@@ -369,7 +419,7 @@ def bulk_case(ctx, ssnet, nframes, then_eof):
         log.add(p.handle('e'))
     if p.dead or p.delivered != frames:
         ctx.violation('C07:bulk:one-read-decodes-fewer-messages',
-                      case=dict(stream='mux-cuts', ops=list(log.ins), frames=show_frames(frames)),
+                      case=vcase(stream='mux-cuts', ops=list(log.ins), frames=show_frames(frames)),
                       expected='%d frames from one read of %d bytes' % (nframes, len(stream)),
                       observed='%d frames delivered, failed=%s' % (len(p.delivered), p.dead), kind='input')
     log.nontrivial = True
@@ -419,7 +469,7 @@ def ping_during_partial_write(ctx, ssnet, rng, grant, payload_len):
     log.outs.append('ok out=15 full=7')
     if not ok:
         ctx.violation('C07:partial-write:control-frame-spliced-into-data-frame',
-                      case=dict(stream='ping-mid-frame', grant=grant, payload_len=payload_len),
+                      case=vcase(stream='ping-mid-frame', grant=grant, payload_len=payload_len),
                       expected=show_frames(sent)[:200], observed=why, kind='ops')
     return log
 
@@ -497,8 +547,10 @@ def run_handshake(chunks):
     proc = FakeProc()
     old_connect = ssh.connect
     old_stderr = sys.stderr
+    old_verbose = helpers.verbose
     ssh.connect = lambda *a, **k: (proc, reader, ScriptedW())
-    sys.stderr = io.StringIO()
+    sys.stderr = _Gone() if CUR[0] >= 10 else io.StringIO()
+    helpers.verbose = CUR[0] % 10
     try:
         try:
             client._main(FakeListener(), None, FakeFw(), None, 'host', None, True, 32768,
@@ -516,6 +568,7 @@ def run_handshake(chunks):
     finally:
         ssh.connect = old_connect
         sys.stderr = old_stderr
+        helpers.verbose = old_verbose
     return 'other', 'returned'
 
 
@@ -531,9 +584,11 @@ def hs_expected(stream, sync=b'SSHUTTLE0001'):
     return ('ok', stream[j + 1 + len(sync):]) if got == sync else ('fatal', got)
 
 
-def hs_case(ctx, chunks):
+def hs_case(ctx, chunks, keep_level=False):
     log = CaseLog('handshake')
     stream = b''.join(chunks)
+    if not keep_level:
+        next_verbose()
     kind, val = run_handshake(chunks)
     log.ins.append('hs ' + ' '.join(hexb(c) for c in chunks if c) if any(chunks) else 'hs')
     if kind == 'ok':
@@ -545,7 +600,7 @@ def hs_case(ctx, chunks):
     exp = hs_expected(stream)
     if (kind, val) != exp:
         ctx.violation('C07:handshake:outcome-depends-on-segmentation',
-                      case=dict(stream='handshake', chunks=[hexb(c) for c in chunks]),
+                      case=vcase(stream='handshake', chunks=[hexb(c) for c in chunks]),
                       expected='%s %s (decided by the bytes alone)' % (exp[0], hexb(exp[1])),
                       observed='%s %s' % (kind, hexb(val) if isinstance(val, bytes) else val),
                       kind='input')
@@ -631,7 +686,7 @@ def transport_shim_case(ctx, ssnet, helpers, grant, payload_lens, only=None):
         p.handle('d', got[k:k + 16384])
     if got != stream or p.dead or p.delivered != frames:
         ctx.violation('C07:transport:shim-does-not-hand-on-the-bytes-written',
-                      case=dict(stream='transport-shim', grant=grant, payload_lens=list(payload_lens)),
+                      case=vcase(stream='transport-shim', grant=grant, payload_lens=list(payload_lens)),
                       expected='%d bytes / %d messages out of the shim, as written' % (len(stream), len(frames)),
                       observed='%d bytes out (%s), %d messages decoded' % (
                           len(got), 'a prefix' if stream.startswith(got) else 'not even a prefix', len(p.delivered)),
@@ -735,6 +790,7 @@ def compare(ctx, logs):
 
 
 def run(ctx):
+    _rot[0] = int(ctx.seed) % len(VERBS)
     logs = gen_cases(ctx)
     for lg in logs:
         ctx.count()
@@ -757,6 +813,7 @@ def run(ctx):
 def replay(ctx, rep):
     ssnet, client, helpers = _mods()
     case = rep['case']
+    _rot[0] = VERBS.index(case.get('verbose', 0)) if case.get('verbose', 0) in VERBS else 0   # directed cases re-run at the recorded level
     if case.get('stream') == 'ping-mid-frame':
         import random
         c2 = type(ctx)(ctx.prop_id, 'quick', 0)
@@ -772,11 +829,12 @@ def replay(ctx, rep):
         return bool(c2.violations), (str(c2.violations[0]['observed']) if c2.violations else 'the frame is read and decoded')
     if case.get('stream') == 'handshake':
         chunks = [common.unhex(c) for c in case['chunks']]
+        CUR[0] = case.get('verbose', 0)
         kind, val = run_handshake(chunks)
         exp = hs_expected(b''.join(chunks))
         return (kind, val) != exp, 'real code: %s %r; bytes alone say: %s %r' % (kind, val, exp[0], exp[1])
     # mux op list
-    p = Pair(ssnet)
+    p = Pair(ssnet, verbose=case.get('verbose', 0))
     for line in case['ops']:
         w = line.split()
         if w[0] == 'send':
